@@ -462,6 +462,11 @@ def jobs(tier):
     from harness import C04_filename
 
     js += C04_filename.jobs(tier)
+    from harness import C02
+
+    for sc in C02.SCENARIOS:
+        if sc.startswith("reuse across glyphs") or sc.startswith("three unrelated"):
+            js.append(Job(f"svg docs[{sc}]", C02.job_docs, scenario=sc, affine="translation"))
     return js
 
 
